@@ -1,5 +1,6 @@
 import NfcVerif.Model.T3
 import NfcVerif.Model.T4
+import NfcVerif.Model.T3Emu
 /-!
 Line-protocol driver of the Type 3 / Type 4 tag models (parts `t34` of C01, C02, C03).
 
@@ -8,6 +9,8 @@ Line-protocol driver of the Type 3 / Type 4 tag models (parts `t34` of C01, C02,
   t4.see <nl><sa> <cc> <file> <fid> <mle> <mlc>
   t4.set <nl><sa> <cc> <file> <fid> <mle> <mlc> <data>  -> none | <res> cmds=<off>:<hex>,.. mem=<hex>
 (<nl><sa>: two characters 0/1, the repairs present in the tree: NLEN loop, short APDU limits)
+  t3e.enc r|w <idm> <service code> <b1,b2,..|-> <data>   -> ok <frame> | exc <Name>
+  t3e.raw <idm+pmm+sys> <store> <cmd>  -> ok <rsp|none> store=<hex> calls=<r|w><bn>:<begin>:<end>,.. | exc <Name>
 -/
 open NfcVerif NfcVerif.T34
 
@@ -33,6 +36,20 @@ def card (cc file fid mle mlc : String) : Option T4.Card :=
   | some cc, some f, some fid, some e, some c => some ⟨cc, f, fid, e, c⟩
   | _, _, _, _, _ => none
 
+def parseNats (s : String) : Option (List Nat) :=
+  if s = "-" then some [] else (s.splitOn ",").mapM String.toNat?
+
+def showCall (c : T3Emu.Call) : String :=
+  s!"{if c.w then "w" else "r"}{c.bn}:{if c.b then 1 else 0}:{if c.e then 1 else 0}"
+
+def emuRaw (ids store cmd : Bytes) : String :=
+  let e : T3Emu.Emu := ⟨ids.take 8, (ids.drop 8).take 8, ids.drop 16, store⟩
+  match T3Emu.processCommand e cmd with
+  | .error x => "exc " ++ x.name
+  | .ok (r, st, log) =>
+    "ok " ++ (match r with | none => "none" | some b => toHex b) ++ " store=" ++ toHex st
+      ++ " calls=" ++ joinC (log.map showCall)
+
 def handle (line : String) : String :=
   match line.splitOn " " with
   | ["t3.see", m] => match parseHex m with
@@ -50,6 +67,13 @@ def handle (line : String) : String :=
       | .error e => "exc " ++ e.name
       | .ok none => "none"
       | .ok (some t) => t4Trace t)
+    | _, _, _ => "bad-op"
+  | ["t3e.enc", k, idm, sc, bl, d] => match parseHex idm, sc.toNat?, parseNats bl, parseHex d with
+    | some idm, some sc, some bl, some d =>
+      showPy toHex (if k = "w" then T3Emu.encWrite idm sc bl d else T3Emu.encRead idm sc bl)
+    | _, _, _, _ => "bad-op"
+  | ["t3e.raw", ids, st, cmd] => match parseHex ids, parseHex st, parseHex cmd with
+    | some ids, some st, some cmd => emuRaw ids st cmd
     | _, _, _ => "bad-op"
   | _ => "bad-op"
 
